@@ -1,6 +1,6 @@
 \* one index x two attempts, pending timeout 1, kill one tick ahead, one fault: a task marked killed that then succeeds; a kill deadline passing mid-pass
 CONSTANTS N = 1 MaxAtt = 2 Delay = 0 Strategy = "AllSuccessful" PT = 1 FD = 2 TTL = 2 Forbid = FALSE Foreign = FALSE MaxTime = 4 MaxEvq = 2 MaxFaults = 1 MaxCrash = 0 Fresh = TRUE KillDelays = {1} KillEdits = {} UserDeletes = FALSE ExtDeletes = FALSE NodeDowns = FALSE
- Rejects = FALSE Holds = FALSE Invalids = FALSE D = 48 K = 25 Goals = {2, 3}
+ Rejects = FALSE Holds = FALSE Invalids = FALSE WatchBreaks = FALSE D = 48 K = 25 Goals = {2, 3}
 SPECIFICATION GSpec2
 VIEW GView
 INVARIANTS Goal2 Goal3 Stop
